@@ -81,9 +81,19 @@ def scenario_msa():
     return finish_case(dict(nodes=nodes, fs0=fs0, steps=[("frontend", d0, True, True), ("build", "t"), ("build", "t"), ("write", "a", "1"), ("build", "t"),
                                                          ("frontend", d0, True, False), ("rm", "d/gen"), ("build", "t")]))
 
-SCENARIOS = {"C10": [("refused-command-hides-failure", scenario_refusal, "C10 delegate-refused command between a failed command and its consumer", "BuildSystemTraceStrict.cfg", "TRefusalHidesNoFailure")],
+def scenario_amo_retry():
+    """S35: an allow-modified-outputs command fails after writing its outputs; the next build of the SAME frontend must re-attempt it"""
+    from bslib import node, cmd, make_desc, finish_case
+    nodes = {n: node("file", n) for n in ["a", "m", "o1"]}
+    d0 = make_desc(dict(c1=cmd(ins=["a"], outs=["o1"], tag="c1", amo=True, failif="m", failpt="after")), dict(t=["o1"]))
+    fs0 = {"a": dict(t="file", c="0"), "m": dict(t="none", c=""), "o1": dict(t="none", c="")}
+    return finish_case(dict(nodes=nodes, fs0=fs0, steps=[("frontend", d0, True, True), ("build", "t"), ("rm", "o1"), ("write", "m", "x"), ("build", "t"),
+                                                         ("rm", "m"), ("build", "t"), ("build", "t")]))
+
+SCENARIOS = {"C10": [("amo-failure-retried", scenario_amo_retry, "C10 allow-modified-outputs command not re-attempted after a failure"),
+                     ("refused-command-hides-failure", scenario_refusal, "C10 delegate-refused command between a failed command and its consumer", "BuildSystemTraceStrict.cfg", "TRefusalHidesNoFailure")],
              "C12": [("structure-of-a-file", scenario_structfile, "C12 filtered structure signature of a non-directory"),
-                     ("must-scan-after", scenario_msa, "C12 must-scan-after-paths from the build file")], "C08": [("amo-input-change", scenario_amo, "C08 allow-modified-outputs: input change not rebuilt")]}
+                     ("must-scan-after", scenario_msa, "C12 must-scan-after-paths from the build file")], "C08": [("amo-input-change", scenario_amo, "C08 allow-modified-outputs: input change not rebuilt", "BuildSystemTraceStrict.cfg", "TOutputsCleanStrict")]}
 
 def run_scenarios(pid, binary, wd):
     out = []
